@@ -164,10 +164,19 @@ CLAIMS['C15'] = dict(
     note='Trusted: serde_json (valid UTF-8 JSON, escaping, BTreeMap-backed Map), the json! macro expansion shape as seen in MIR, rustc.',
     ref='DESIGN.md §3 C15')
 
+CLAIMS['C14'] = dict(
+    technique='dataflow-shape rules on MIR (what each ProcessState field is computed from) with path-sensitive branch facts: selector, skip, presence and width gating',
+    text='Narrow claim: the structural clauses only. ProcessState is built in exactly one place; threads = collect(map(enumerate(iter(thread_list.threads)), closure)) with no filtering or reordering adapter and no later reorder / shrink, the walk pairs '
+         'state.threads.iter_mut() with the thread list positionally; every CallStack the closure returns carries the id of its own item and thread_names.get_name(id); requesting_thread is written only as Some(<enumerate index>) on paths that established '
+         'exception-thread-id.or(breakpad requesting id) == Some(id) and passed the dump-writer-thread early return, and on those paths the walk context is exception_context.or(thread_context), on the others the thread\'s own context; '
+         'get_crash_address reads exception_information[1] only for Windows access-violation / in-page errors with number_parameters >= 2 and truncates to 32 bits exactly when pointer_width is Bits32; ExceptionInfo is fed from get_crash_reason / get_crash_address(os, cpu); '
+         'process id comes from misc info else Linux status, create time from misc info, time from the header; modules / unloaded modules / system info / handles are the streams\' values; per-frame unloaded offsets are frame.instruction - base_of_image over modules_at_address(frame.instruction) for frames without a module. '
+         'The value-level mapping exception code -> crash reason is NOT decided.',
+    note='Trusted: enumerate/map/collect/zip/join_all preserve positions; MinidumpThread::context and MinidumpException::context decode the right bytes (field-level reading is C02\'s claim). A behaviour-preserving rewrite of these few functions into a different dataflow shape would need the rule updated.',
+    ref='DESIGN.md §3 C14')
+
 NOT_YET = {}
-NA = {
-    'C14': 'every clause relates values of the result to values of the dump (which thread, which context, which address after masking); no clause has a structural form that would not also fire on behaviour-preserving rewrites, so static analysis does not apply; its panic-freedom is covered under C03',
-}
+NA = {}
 
 
 def main():
